@@ -60,7 +60,7 @@ RULE = (
 BIN = Path(__file__).resolve().parent.parent / "fixtures" / "bin"
 ENV = "VERIF_FAKE_CTL"
 JOIN_TIMEOUT_HANG = 0.2
-JOIN_TIMEOUT_LONG = 30.0
+JOIN_TIMEOUT_LONG = 300.0
 TERMINAL = ("JOINED", "CANCELLED")
 PROTEIN_LETTERS = "ACDEFGHIKLMNPQRSTVWYBZX"
 
@@ -94,7 +94,7 @@ def _is_dead(pid):
     return _proc_state(pid) in (None, "Z", "X")
 
 
-def _wait_dead(pid, limit=5.0):
+def _wait_dead(pid, limit=60.0):
     """Bounded wait: SIGKILL delivery is asynchronous.  True if the pid died."""
     t_end = time.monotonic() + limit
     while True:
@@ -105,7 +105,7 @@ def _wait_dead(pid, limit=5.0):
         time.sleep(0.005)
 
 
-def _wait_exited(pid, limit=25.0):
+def _wait_exited(pid, limit=120.0):
     """Wait (without reaping) until our child has exited."""
     t_end = time.monotonic() + limit
     while time.monotonic() < t_end:
@@ -608,7 +608,16 @@ class LocalModel:
         alive = None
         if self.child == "blocked" and proc is not None:
             alive = not _is_dead(proc.pid)
-        return (os.getcwd(), self.sess.tmp_listing(), self.app.verif_cleanups, alive, len(self.sess.log()) if self.child in ("none", "exited", "dead") else None)
+        # what a *running* tool does to the temp directory and to its log by itself is no side effect of the
+        # rejected call: both are compared only while no child is running
+        quiescent = self.child in ("none", "exited", "dead")
+        return (
+            os.getcwd(),
+            self.sess.tmp_listing() if quiescent else None,
+            self.app.verif_cleanups,
+            alive,
+            len(self.sess.log()) if quiescent else None,
+        )
 
     def rejected_call(self, fn, what):
         self.rejected += 1
